@@ -224,7 +224,8 @@ func tokCol(t *schema.Table, c *schema.Column, w *[]string) {
 		hasAttr(c.Attrs, &co)
 		hasAttr(t.Attrs, &tcs)
 		hasAttr(t.Attrs, &tco)
-		T = strings.Join([]string{T, cs.V, co.V, tcs.V, tco.V}, us)
+		f64, t64 := numProj(c)
+		T = strings.Join([]string{T, cs.V, co.V, tcs.V, tco.V, f64, t64}, us)
 	case "postgres":
 		id := &postgres.Identity{}
 		f := []string{T, "", "", "", ""}
@@ -466,3 +467,29 @@ func tokSchema(s *schema.Schema) string {
 	return strings.Join(w, " ")
 }
 
+
+// numProj projects the default literal of a MySQL column for the model (DiffDialects.v header):
+// with x = strings.ToLower(strings.Trim(default, "' ")), f64 = the shortest text of
+// strconv.ParseFloat(x, 64) ("" if it fails or is NaN; -0 as 0) and t64 = int64(that float) in
+// decimal.  The model decides with them what equalIntValues / equalFloatValues decide after their
+// calls of strconv; the strconv functions themselves are not modelled.
+func numProj(c *schema.Column) (string, string) {
+	var d string
+	switch x := c.Default.(type) {
+	case *schema.Literal:
+		d = x.V
+	case *schema.RawExpr:
+		d = x.X
+	default:
+		return "", ""
+	}
+	x := strings.ToLower(strings.Trim(d, "' "))
+	f, err := strconv.ParseFloat(x, 64)
+	if err != nil || f != f {
+		return "", ""
+	}
+	if f == 0 {
+		f = 0
+	}
+	return strconv.FormatFloat(f, 'g', -1, 64), strconv.FormatInt(int64(f), 10)
+}
